@@ -83,6 +83,10 @@ func Emit(out *wh.Out, res *Result) {
 		out.Note("STUCK: " + s + " :: " + res.Sc.Tag + " " + strings.Join(res.Sc.Prog, " "))
 		out.Count("stuck")
 	}
+	if res.Leftover == 0 && res.LeftDump != "" {
+		out.Note("ISOLATED (" + res.Sc.Tag + "): " + res.LeftDump)
+		out.Count("child_process_died")
+	}
 	if res.Leftover > 0 {
 		out.Note("LEFTOVER goroutine (" + res.Sc.Tag + "): " + strings.ReplaceAll(res.LeftDump, "\n", " | "))
 	}
